@@ -215,6 +215,17 @@ def check_determinism(b, rexpy, examples, o, size, seed, w):
         ok, r = b.guarded('C14.extract.noraise', lambda: rexpy.extract(freq, **kw), w)
     if ok:
         b.check('C14.list-equals-frequency-dict', r == base, dict(w, form='dict'), '%r vs %r' % (r, base))
+    if 'encoding' not in kw:
+        # the same strings supplied as encoded bytes (list and frequency dictionary, zero counts included)
+        benc = [x.encode('utf-8') for x in examples]
+        bfreq = {x.encode('utf-8'): n for x, n in freq.items()}
+        bfreq0 = dict(bfreq)
+        bfreq0[b'never supplied 0'] = 0
+        for form, arg in (('bytes list', benc), ('bytes dict', bfreq), ('bytes dict with a zero count', bfreq0)):
+            with quiet():
+                ok, r = b.guarded('C14.extract.noraise', lambda: rexpy.extract(arg, encoding='utf-8', **kw), dict(w, form=form))
+            if ok:
+                b.check('C14.list-equals-frequency-dict', r == base, dict(w, form=form), '%r vs %r' % (r, base))
     with quiet():
         ok, r = b.guarded('C14.extract.noraise', lambda: rexpy.extract(list(examples) + list(examples[:1]), **kw), w)
     if ok:
